@@ -50,9 +50,7 @@ theorem commit_liveAt (p : Str) :
     obtain ⟨hcm, hcp⟩ := get_some change p c hc
     have hidx : ∀ e, VMap.get side p = some e → c.index ≠ e.index := by
       intro e he
-      have h1 := hok.idxChange c hcm
-      have h2 := hok.idxSide e (get_some side p e he).1
-      omega
+      exact hok.idxFresh c hcm e (by rw [hcp]; exact he)
     by_cases hcd : c.deleted = true
     · simp only [hcd, if_true]
       rcases hmem with hv | ⟨_, hv, q, hq, habove⟩
@@ -128,8 +126,7 @@ theorem commit_liveAt (p : Str) :
           have : e' = e := (Option.some.inj he').symm
           subst this
           rw [mark_index]
-          have := hok.idxSide e' hem
-          omega
+          exact hok.idxMark e' hem
         · rw [hv]; simp only
           by_cases hed : e.deleted = true
           · simp [liveOpt, hed]
